@@ -346,11 +346,13 @@ PROPS["C19"] = Meta(_c19_jobs(),
     SCHED_ASSUME)
 
 
-def num(kernel, order, real="double", rt=0, periodic=0, tsmn=0, low=None):
-    name = "t_num_%s%d%s_%s%s%s%s" % ({1: "rot", 2: "unif"}[kernel], order, ("vs%d" % low) if low else "", real, "_omp" if rt else "", "_per" if periodic else "", "_tsm" if tsmn else "")
+def num(kernel, order, real="double", rt=0, periodic=0, tsmn=0, low=None, chain=False):
+    name = "t_num_%s%d%s_%s%s%s%s%s" % ({1: "rot", 2: "unif"}[kernel], order, ("vs%d" % low) if low else "", real, "_omp" if rt else "", "_per" if periodic else "", "_tsm" if tsmn else "", "_chain" if chain else "")
     defs = {"KERNEL": kernel, "ORDERV": order, "REALT": real, "RT": rt, "PERIODIC": periodic, "TSMN": tsmn}
     if low:
         defs["ORDERLOW"] = low
+    if chain:
+        defs["ORDERCHAIN"] = None
     srcs = ["props/t_num.cpp"] + (["runtimes/mockgomp.cpp"] if rt else [])
     cxx = (["-fopenmp"] if rt else []) + ["-O2"]       # numerical kernels are heavy: optimise (sanitizers and assertions stay on)
     defs2 = dict(defs)
@@ -444,6 +446,11 @@ for _p, _f in _QUICK_FACTOR.items():
         _pr, _ca, _sz = _j.quick
         if _pr > 0:
             _j.quick = (_pr, _ca * _f, _sz)
+
+
+# ---- C05 quantifies over the orders 3..8 and every order has its own node / operator tables: one binary evaluates all six orders on the same case
+PROPS["C05"].jobs += [Job("unif-chain-3to8", num(2, 8, chain=True), quick=(3, 60, 100), thorough=(16, 250, 100)),
+                      Job("unif-chain-3to8-periodic", num(2, 8, periodic=1, chain=True), quick=(1, 30, 100), thorough=(16, 150, 100), thorough_only=True)]
 
 
 # ---- libFuzzer targets (coverage-guided, structure-aware decode in model/bytes.hpp, same oracles as the rapidcheck binaries) -------------
